@@ -12,6 +12,9 @@ OpsV == {"GoNew", "Sentinel", "CtxDeadline", "Errno", "New", "Newf", "NewfW", "P
          "OsLinkError", "OsSyscallError", "UWrap", "Join", "JoinPkg", "GoJoin", "GoWrap2", "Hop"}
 \* restricted instance: %w formats below message wrappers, joins and barriers
 OpsW == {"GoNew", "New", "NewfW", "Wrap", "WithMessage", "Handled", "Join", "GoWrap", "WithHint"}
+\* restricted instance: stacks captured locally, decoded, and captured again around them
+OpsSrc == {"GoNew", "New", "PkgNew", "Wrap", "WithStack", "PkgWithStack", "WithHint", "Hop"}
 ShapesV == {<<"w1">>, <<"w1", "SEP", "w2">>, <<"w2", "PCT">>}
+ShapesOne == {<<"w1">>}
 Shapes2V == {<<"w2">>}
 =============================================================================
